@@ -107,7 +107,8 @@ def check(ctx: Ctx) -> None:
               message=f"saved only: {sorted(set(saved) - rkeys)}; restored only: {sorted(rkeys - set(saved))}", file=fe.file, node=fe.node)
     # shift
     shift = [v for v, (k, d, s) in restored.items() if v not in written and any(isinstance(n, ast.Name) and n.id == v for n in ast.walk(loop))]
-    clock_key = restored.get("cur_time", (None,))[0]
+    # the carried clock: the restored variable that the rest bookkeeping advances (state key "cur_time" by the API's naming)
+    clock_key = "cur_time" if any(k == "cur_time" for k, _, _ in restored.values()) else None
     ctx.check(len(shift) == 1 and restored[shift[0]][0] == clock_key and clock_key is not None, "ST1",
               f"the shift of bar-relative times reads the carried clock's key ({shift})", function=fe.qualname,
               construct="the shift applied to event times is not the carried clock", message=f"{[(v, restored[v][0]) for v in shift]}", file=fe.file,
@@ -124,17 +125,38 @@ def check(ctx: Ctx) -> None:
             break
         if isinstance(s, ast.Assign) and isinstance(s.targets[0], ast.Name):
             dinit[s.targets[0].id] = s.value
+    by_key = {k: (var, d, st_) for var, (k, d, st_) in restored.items()}
+    ren = {var: k for k, (var, _, _) in by_key.items()}      # local name -> state key (the keys are named after detokenise's variables)
+    for dv, dvar in list(pre_assign.items()):
+        pass
     for v in ("cur_time", "cur_time_bar", "cur_time_signature_numerator", "cur_time_signature_denominator", "cur_bar_capacity_remaining"):
-        if v not in restored:
-            ctx.violation("ST2", f"`{v}` restored with a default", function=fe.qualname, construct=f"`{v}` is not restored from the state dictionary", message="",
+        if v not in by_key:
+            ctx.violation("ST2", f"state key `{v}` restored with a default", function=fe.qualname, construct=f"`{v}` is not restored from the state dictionary", message="",
                           file=fe.file, node=fe.node)
             continue
-        d = restored[v][1]
+        d = by_key[v][1]
         dd = dinit.get(v)
-        ok = d is not None and dd is not None and src(d) == src(dd)
+        if dd is None:
+            ctx.undetermined("ST2", f"default of `{v}`", "detokenise has no variable of that name: not judged")
+            continue
+
+        def neutral(e):
+            # names of tokenise's locals replaced by the state keys they carry; capacity formula by its normal form
+            class R(ast.NodeTransformer):
+                def visit_Name(self, n):
+                    return ast.copy_location(ast.Name(id=ren.get(n.id, n.id), ctx=n.ctx), n)
+            import copy as _c
+            return src(R().visit(_c.deepcopy(e)))
+        dtxt = neutral(d) if d is not None else None
+        if d is not None and isinstance(d, ast.Name) and d.id in derived:
+            dtxt = T.rename_sig(nz.norm(derived[d.id].value).canon())
+            ddtxt = T.rename_sig(Normaliser(atom_hook=T.field_hook({})).norm(dinit[dd.id]).canon()) if isinstance(dd, ast.Name) and dd.id in dinit else src(dd)
+        else:
+            ddtxt = src(dd)
+        ok = d is not None and dtxt == ddtxt
         ctx.check(ok, "ST2", f"default of `{v}` = detokenise's initial value ({short(d)})", function=fe.qualname,
                   construct=f"default of `{v}` differs from detokenise's initial clock",
-                  message=f"tokenise starts `{v}` at `{short(d)}`, detokenise at `{short(dd)}`", file=fe.file, node=restored[v][2])
+                  message=f"tokenise starts `{v}` at `{short(d)}`, detokenise at `{short(dd)}`", file=fe.file, node=by_key[v][2])
 
     # ---- ST3 ordering and unconditionality
     first_save = min((s.lineno for _, s in saved.values()), default=0)
